@@ -35,7 +35,7 @@ Proof.
     set (code := b0 * 256 + b1).
     assert (Hc : code < 65536) by (subst code; lia).
     split; [|reflexivity].
-    unfold check_encoding8, forbidden_code.
+    unfold check_encoding8, forbidden_code, close_class.
     change sc_protocol with 1002. change sc_normal with 1000. change sc_unsupported_data with 1007.
     destruct utf8_on; cbn [andb negb].
     + destruct (utf8_valid reason); cbn [negb].
